@@ -748,3 +748,226 @@ def depths_of(tier):
 CHECKS = {"C01": check_C01, "C04": check_C04, "C05": check_C05, "C06": check_C06, "C07": check_C07, "C08": check_C08, "C17": check_C17, "C18": check_C18, "C19": check_C19}
 for _p in QUERY:
     CHECKS[_p] = (lambda p: (lambda tier: query_check(p, tier)))(_p)
+
+
+# ============================================================================ walker
+
+from . import walk as W  # noqa: E402
+
+WALK_TRUST = ["TLC", "walkdir behaves as modelled in Walk.tla!Yield (validated on every recorded trace)",
+              "hook events are emitted in program order on one thread; grouping them into actions is deterministic"]
+
+
+def sample_model_scenarios(tier, rnd, n_total, consts, tag, want=lambda s: True):
+    scs = [s for s in W.model_scenarios(consts, tag) if want(s)]
+    rnd.shuffle(scs)
+    return scs[:n_total]
+
+
+def emitted_set(y):
+    return sorted(tuple(x["pos"]) for x in y if x["emitted"] and x["err"] == "none")
+
+
+def filters_check(prop, tier):
+    """C13 and C16: stacks of filters over path walks and glob walks"""
+    t0 = time.time()
+    rnd = random.Random(C.SEED)
+    v = C.Verdict(prop)
+    # 1. the model, exhaustively
+    n = 3 if tier == "quick" else 4
+    mc = []
+    mc.append(("filters", W.model_check("filters", W.mc_consts(n, 2), ["NothingBeneathDiscarded", "CancelOnce", "CancelPopsOwnFrame", "Final", "SameAsEntryFilter"], ["Monotone"])))
+    mc.append(("glob+filter", W.model_check("glob", W.mc_consts(n, 1, glob=True), ["NothingBeneathDiscarded", "CancelOnce", "CancelPopsOwnFrame", "Final", "MatchingOnly"], constraint="GlobConstraint")))
+    if tier == "thorough":
+        mc.append(("three layers", W.model_check("filters3", W.mc_consts(3, 3), ["NothingBeneathDiscarded", "CancelOnce", "CancelPopsOwnFrame", "Final"], ["Monotone"])))
+        mc.append(("links+faults", W.model_check("links", W.mc_consts(4, 1, links=True, faults=True, depths=True), ["NothingBeneathDiscarded", "CancelOnce", "CancelPopsOwnFrame", "Final"])))
+    for name, st in mc:
+        if not st["ok"]:
+            raise C.ToolError("the model itself violates an invariant (%s): %s" % (name, st.get("violation", st.get("tail", ""))[:1500]))
+    # 2. scenarios enumerated by TLC, executed by the real walker, traces validated
+    count = 200 if tier == "quick" else 2500
+    interesting = lambda s: any(x != "keep" for lv in s["layers"] for x in lv)
+    scs = sample_model_scenarios(tier, rnd, count, W.mc_consts(4, 2), "n4l2", interesting)
+    scenarios = []
+    pairs = []
+    for sc in scs:
+        h = W.from_model(sc, len(scenarios) + 1)
+        scenarios.append(h)
+        if prop == "C16":
+            # the same scenario with the two layers in the opposite order
+            h2 = W.from_model(dict(sc, layers=list(reversed(sc["layers"]))), len(scenarios) + 1)
+            h2["origin"] = "model, layers reversed"
+            scenarios.append(h2)
+            pairs.append((h["sid"], h2["sid"]))
+    scenarios += library_scenarios(prop, tier, len(scenarios) + 1, rnd)
+    results, yielded, tstats, ntraces = W.run_and_validate(prop, scenarios, prop.lower(), v)
+    for a, b in pairs:
+        if a in yielded and b in yielded and emitted_set(yielded[a]) != emitted_set(yielded[b]):
+            v.disagree({"t": "DISAGREE", "what": "order_of_layers_changes_result", "sid": a},
+                       "scenario %d: reversing the two layers changes the yielded set: %s vs %s" % (a, emitted_set(yielded[a]), emitted_set(yielded[b])))
+    by_sid = {h["sid"]: h for h in scenarios}
+    extra = library_oracles(prop, scenarios, results, yielded, v)
+    samples = []
+    for h in rnd.sample(scenarios, min(4, len(scenarios))):
+        y = yielded.get(h["sid"], [])
+        samples.append({"scenario": h.get("desc", h["origin"]), "tree": [(nd["id"], nd["parent"], C.text(nd["name"]), nd["kind"]) for nd in h["nodes"]],
+                        "layers": [l.get("verdicts", [C.text(p) for p in l.get("patterns", [])]) for l in h["layers"]],
+                        "yielded": [x["text"] for x in y if x["emitted"]]})
+    rc = v.finish()
+    C.write_evidence(prop, tier, "model_checking", {
+        "states": sum(st["distinct"] for _, st in mc) + tstats["distinct"], "transitions": sum(st["generated"] for _, st in mc) + tstats["generated"],
+        "traces_validated_against_impl": ntraces,
+        "samples": samples,
+        "evaluations": len(scenarios), "distinct_nontrivial": sum(1 for h in scenarios if any(l.get("verdicts") or l.get("patterns") for l in h["layers"]) or h.get("glob") is not None),
+        "rule": "model: every tree up to %d nodes x every verdict table of the layers x every sibling order (configs %s); real: %d scenarios sampled (seeded) from the TLC-enumerated initial states of the 4-node/2-layer model with at least one discard%s, plus a library of glob / negation / nested-discard scenarios; each executed on a real file system with pass-through probes in every unused slot of a 7-layer stack, its hook trace validated against Walk.tla; non-trivial = some layer discards something" % (
+            n, [name for name, _ in mc], len(scs), " and their layer-reversed twins" if prop == "C16" else ""),
+        "model_runs": {name: {"states": st["distinct"], "transitions": st["generated"]} for name, st in mc},
+        "trace_validation": {"states": tstats["distinct"], "traces": ntraces},
+        "oracle_checks": extra,
+        "known_findings_hit": sorted(v.findings), "exhaustive": True,
+    }, time.time() - t0, len(v.violations), WALK_TRUST)
+    return rc
+
+
+def library_scenarios(prop, tier, first_sid, rnd):
+    return []
+
+
+def library_oracles(prop, scenarios, results, yielded, v):
+    return {}
+
+
+CHECKS["C13"] = lambda tier: filters_check("C13", tier)
+CHECKS["C16"] = lambda tier: filters_check("C16", tier)
+
+
+def expected_glob_yield(h, r, is_match):
+    """C02 oracle: positions beneath the base whose relative path the glob matches (real is_match)"""
+    paths = W.node_paths(dict(h, walk_from=h["walk_from"]))
+    base = h["_base_text"]
+    g = C.text(r["glob_text"]) if h.get("rooted") else C.text(h["glob"])
+    top = C.text(r["top"])
+    exp = set()
+    if not h["_plain_prefix"]:
+        # a prefix with . or .. is a native path: the walk starts at the resolved anchor and the rest of the
+        # glob (the partitioned postfix) is matched against paths relative to it
+        anchor = h["_anchor_text"]
+        allp = W.node_paths(dict(h, walk_from=1))
+        for t in allp:
+            if t != anchor and not t.startswith(anchor + "/"):
+                continue
+            rel = W.rel_to(t, anchor)
+            if h["_post"] is None:
+                if rel == "":
+                    exp.add(t)
+            elif rel != "" and is_match[((h["_post"],), rel)]:
+                exp.add(t)
+        return exp
+    for t in paths:
+        rel = W.rel_to(t, base)
+        cand = (top + "/" + t) if h.get("rooted") else rel
+        if rel == "":
+            continue  # the base itself: one-sided clause, checked separately
+        if is_match[((g,), cand)]:
+            exp.add(t)
+    return exp
+
+
+def check_C02(tier):
+    t0 = time.time()
+    rnd = random.Random(C.SEED)
+    v = C.Verdict("C02")
+    n = 3 if tier == "quick" else 4
+    mc = [("glob layer, ComponentSound tables", W.model_check("glob0", W.mc_consts(n if tier == "quick" else 5, 0, glob=True), ["NothingBeneathDiscarded", "CancelOnce", "CancelPopsOwnFrame", "Final", "MatchingOnly"], constraint="GlobConstraint"))]
+    for name, st in mc:
+        if not st["ok"]:
+            raise C.ToolError("the model itself violates an invariant (%s): %s" % (name, st.get("violation", st.get("tail", ""))[:1500]))
+    # ComponentSound for real globs: product of the glob's DFA with its component DFAs (all paths)
+    cs_stats, cs_n = component_sound("C02", tier, v)
+    scenarios = W.glob_scenarios(tier, 1, rnd)
+    pivots = W.prepare_glob_scenarios(scenarios)
+    results, yielded, tstats, ntraces = W.run_and_validate("C02", scenarios, "c02", v, pivots=pivots)
+    # oracle: real is_match on every path beneath the base
+    pairs = []
+    for h in scenarios:
+        r = results[h["sid"]]
+        g = C.text(r["glob_text"]) if h.get("rooted") else C.text(h["glob"])
+        top = C.text(r["top"])
+        for t in W.node_paths(dict(h, walk_from=h["walk_from"])):
+            rel = W.rel_to(t, h["_base_text"])
+            pairs.append(((g,), (top + "/" + t) if h.get("rooted") else rel))
+        if not h["_plain_prefix"] and h["_post"] is not None:
+            for t in W.node_paths(dict(h, walk_from=1)):
+                if t.startswith(h["_anchor_text"] + "/"):
+                    pairs.append(((h["_post"],), W.rel_to(t, h["_anchor_text"])))
+    is_match = W.matches(pairs)
+    n_oracle = 0
+    for h in scenarios:
+        r = results[h["sid"]]
+        got = []
+        for b in r["blocks"]:
+            if b["item"]["k"] == "entry":
+                f = b["item"]["facts"]
+                got.append(os.path.normpath(C.text(f["path"]["p"])))
+            elif b["item"]["k"] == "error" and h["_anchor_text"] not in W.node_paths(dict(h, walk_from=1)):
+                pass  # the literal prefix of the glob does not exist: the walk reports that it cannot read it
+            elif b["item"]["k"] in ("panic", "runaway", "error"):
+                v.disagree({"t": "DISAGREE", "what": "walk_" + b["item"]["k"], "sid": h["sid"], "scenario": h}, "%s: %s" % (h["desc"], b["item"]))
+        exp = expected_glob_yield(h, r, is_match)
+        base = h["_base_text"]
+        got_below = [t for t in got if os.path.normpath(t) != base]
+        n_oracle += 1
+        sig = {"dotprefix": not h["_plain_prefix"], "rooted": bool(h.get("rooted"))}
+        if sorted(got_below) != sorted(set(got_below)):
+            v.disagree({"t": "DISAGREE", "what": "entry_yielded_twice", "sid": h["sid"], "sig": sig, "scenario": h}, "%s: yielded twice: %s" % (h["desc"], sorted(got_below)))
+        missing = sorted(exp - set(got_below))
+        extra = sorted(set(got_below) - exp)
+        if missing:
+            v.disagree({"t": "DISAGREE", "what": "matching_entry_not_yielded", "sid": h["sid"], "sig": sig, "scenario": h}, "%s: not yielded: %s" % (h["desc"], missing))
+        if extra:
+            v.disagree({"t": "DISAGREE", "what": "non_matching_entry_yielded", "sid": h["sid"], "sig": sig, "scenario": h}, "%s: yielded but not matched: %s" % (h["desc"], extra))
+        if any(os.path.normpath(t) == base for t in got):
+            g = C.text(r["glob_text"]) if h.get("rooted") else C.text(h["glob"])
+            cand = (C.text(r["top"]) + "/" + base) if h.get("rooted") else ""
+            if not is_match[((g,), cand)]:
+                v.disagree({"t": "DISAGREE", "what": "base_yielded_without_matching", "sid": h["sid"], "sig": sig, "scenario": h}, "%s: the base was yielded but the glob does not match %r" % (h["desc"], cand))
+    samples = [{"scenario": h["desc"], "yielded": [C.text(b["item"]["facts"]["path"]["p"]) for b in results[h["sid"]]["blocks"] if b["item"]["k"] == "entry"][:8]}
+               for h in rnd.sample(scenarios, min(5, len(scenarios)))]
+    rc = v.finish()
+    C.write_evidence("C02", tier, "model_checking", {
+        "states": sum(st["distinct"] for _, st in mc) + tstats["distinct"] + cs_stats["distinct"],
+        "transitions": sum(st["generated"] for _, st in mc) + tstats["generated"] + cs_stats["generated"],
+        "traces_validated_against_impl": ntraces,
+        "samples": samples,
+        "evaluations": len(scenarios) + cs_n, "distinct_nontrivial": len({(h["tree"], C.text(h["glob"]), h["walk_from"], h.get("rooted")) for h in scenarios}),
+        "rule": "(i) model: every tree up to %d nodes x every pair of glob-layer tables satisfying ComponentSound x every sibling order: pruning never loses a match; (ii) ComponentSound discharged by TLC for %d built globs of the lexeme families (product of the glob's compiled automaton with its walk component automata, all paths); (iii) %d real glob walks (unprefixed, literal prefix, rooted at the absolute scratch path, ./.. prefixes, bases inside the tree, three spellings of the base) whose hook traces are validated against Walk.tla and whose yielded sets are compared with an independent traversal filtered by the real is_match; non-trivial = distinct (tree, glob, base, rooted)" % (n if tier == "quick" else 5, cs_n, len(scenarios)),
+        "oracle_comparisons": n_oracle, "traces_skipped_non_native_prefix": sum(1 for h in scenarios if h.get("skip_trace")),
+        "known_findings_hit": sorted(v.findings), "exhaustive": True,
+    }, time.time() - t0, len(v.violations), WALK_TRUST + ["the yielded set is compared with an independent traversal (Python) filtered with the real is_match (C01 covers is_match)"])
+    return rc
+
+
+def component_sound(prop, tier, v):
+    """ComponentSound(A, C1..Ck) for the globs of the lexeme families: TLC product (CompCheck.tla)"""
+    cases = L.family_cases(tier, [("core", 5), ("dots", 4)] if tier == "quick" else [("core", 6), ("dots", 5), ("case", 4)])
+    obs_path = L.observe(cases, "dfa,walk", "comp-" + tier)
+    out, stats = C.tlc("CompCheck.tla", "CompCheck.cfg", env={"OBS": obs_path}, timeout=3000, java_opts=["-Xmx12g"])
+    if not stats["ok"]:
+        C.log(stats.get("tail", ""))
+        raise C.ToolError("TLC did not complete on CompCheck")
+    by_id = None
+    n = 0
+    for r in C.tlc_records(out):
+        if r["t"] == "IN":
+            n += 1
+        elif r["t"] == "DISAGREE":
+            if by_id is None:
+                by_id = {o["id"]: o for o in L.read_ndjson(obs_path)}
+            v.disagree(r, "%r: path %r is matched although its component %d is rejected by the walk's component program (the walk would prune it)" % (
+                L.expr_of(by_id[r["id"]]), C.text(r["path"]), r.get("comp", 0)))
+    if n == 0:
+        raise C.ToolError("vacuous run of CompCheck")
+    return stats, n
+
+
+CHECKS["C02"] = check_C02
